@@ -25,8 +25,11 @@ import (
 type WWWFormUrlencodedDecoder struct{}
 
 func (WWWFormUrlencodedDecoder) Decode(rawData []byte) (map[string]any, error) {
+	// malformed pairs are reported by means of an error, but do not prevent the parsing of the
+	// other ones. As it is the case for query parameters, such pairs are just ignored: the
+	// other parameters, like e.g. a token, are still part of the request
 	values, err := url.ParseQuery(stringx.ToString(rawData))
-	if err != nil {
+	if err != nil && len(values) == 0 {
 		return nil, err
 	}
 
